@@ -4,6 +4,9 @@ package http3
 //
 // Parts
 //   lattice      message lattice (<= 2-dimension deviations quick, <= 3 thorough), no faults
+//   trailer-spell every spelling of the handler's Trailer announcement (one name per value / one
+//                comma-separated value with and without spaces; canonical, lower, mixed case) x
+//                every way of setting the values, crossed with the <= 1 (2) dimension deviations
 //   raw          scripted raw QUIC client against the real server side: byte splits, resets,
 //                unknown / forbidden frames and streams
 //   raw-client   scripted raw QUIC server against the real Transport: the same, mirrored
@@ -132,6 +135,23 @@ func TestVerifC18(t *testing.T) {
 				cases = append(cases, c18Case{Msg: m, Seed: seed(e)})
 			}
 			return cases, fmt.Sprintf("every valid message that deviates from the default message in <= %d of %d dimensions %v (sizes %v), no network faults", k, len(c18DimNames), c18DimNames, c18DimSizes)
+		}),
+		c18Part(t, "trailer-spell", false, func(e explore.Env) ([]c18Case, string) {
+			k := 1
+			if e.Thorough() {
+				k = 2
+			}
+			others := c18Deviations(k, map[string]bool{"resptrailer": true})
+			var cases []c18Case
+			for sp := 0; sp < c18TrSpellCount(); sp++ {
+				for _, m := range others {
+					m.RespTr = c18TrSpellBase + sp
+					if m.valid() {
+						cases = append(cases, c18Case{Msg: m, Seed: seed(e)})
+					}
+				}
+			}
+			return cases, fmt.Sprintf("handler announces the trailers %v in the Trailer field in each of %d layouts %v x %d spellings of the names %v and sets them in each of %d ways %v (Header().Set / Add with that spelling of the name; 'early-value': B and C already hold another value when the header is written), crossed with every message that deviates from the default in <= %d of the other dimensions (%d messages); no network faults", c18TrNames, len(c18TrLayoutNames), c18TrLayoutNames, len(c18TrCaseNames), c18TrCaseNames, len(c18TrSetNames), c18TrSetNames, k, len(others))
 		}),
 		c18Part(t, "early-reject", false, func(e explore.Env) ([]c18Case, string) {
 			// the valid message that follows the rejected uploads on the same connection
@@ -305,7 +325,7 @@ func TestVerifC18(t *testing.T) {
 		}),
 	}
 	// cheap, always-complete parts first; the fault enumerations use what is left of the deadline
-	order := []string{"lattice", "raw", "raw-client", "real-server", "early-reject", "faults", "faults-k2"}
+	order := []string{"lattice", "trailer-spell", "raw", "raw-client", "real-server", "early-reject", "faults", "faults-k2"}
 	var sorted []explore.Part
 	for _, n := range order {
 		for _, p := range parts {
